@@ -170,6 +170,7 @@ class Obj:
         self.obj = obj
         self.ref = ref            # site-basis representation (numpy)
         self.protected_S = None   # accumulated transformation at protection time
+        self.lvl = 0              # nesting level of the representation the object is stored in (context operators only)
 
 
 def present(o):
@@ -384,6 +385,7 @@ def run_case(case, ctx):
         else:
             ctxops.append(Obj("Hamiltonian", qr.Hamiltonian(data=d.copy()), d.copy()))
     active = []         # context operators whose context is currently entered
+    Slevels = [numpy.eye(n)]   # accumulated transformation of every open nesting level
     state = {"step": 0}
     raise_at = int(rng.integers(1, case["steps"] + 1)) if case["exc"] == "harness" else -1
     scale = lambda a: max(float(numpy.max(numpy.abs(a))), 1.0)
@@ -397,6 +399,8 @@ def run_case(case, ctx):
         with ctx.lib("reading managed data", mechanism=None, expect=Boom):
             with contextlib.redirect_stdout(out):
                 got = present(o)
+        if o.protected_S is None:
+            o.lvl = level
         exp = expected(o, Stot)
         ok = got.shape == exp.shape
         ctx.require(what, ok, {"kind": o.kind, "level": level, "what": "shape"})
@@ -467,6 +471,7 @@ def run_case(case, ctx):
                                     A.jr = None
                             elif mode == "element" and A.kind != "Hamiltonian":
                                 dd = A.obj.data
+                                A.lvl = level
                                 if numpy.shares_memory(dd, A.obj._data):
                                     events.append("M:element")
                                     i0, j0 = int(rng.integers(n)), int(rng.integers(n))
@@ -484,6 +489,7 @@ def run_case(case, ctx):
                                 new = 0.7 * cur + 0.3 * tr_op(rsym(rng, n, "generic"), Stot)
                                 new = (new + new.T) / 2
                                 A.obj.data = new.copy()
+                                A.lvl = level
                                 A.ref = tr_op(new, Stot.T)
                     if rng.random() < 0.3:
                         check_read(A, Stot, level)
@@ -577,6 +583,28 @@ def run_case(case, ctx):
         A = ctxops[int(rng.integers(2))]
         if A.protected_S is not None:
             return
+        # the library's own idiom: ham.protect_basis(); with eigenbasis_of(ham): ...; ham.unprotect_basis() - also from within
+        # another context, whether or not the operator has been looked at there.  The protected operator keeps the representation
+        # it had; everything else is presented in its eigenbasis.
+        prot_enter = bool(rng.random() < 0.2) and not any(A is y for y in active)
+        if prot_enter:
+            if rng.random() < 0.5:
+                check_read(A, Stot, level)
+            with ctx.lib("protect_basis (context operator)", mechanism=None, expect=Boom):
+                A.obj.protect_basis()
+            A.protected_S = Slevels[min(A.lvl, len(Slevels) - 1)].copy()
+            events.append("PROT-ENTER" + ("" if A.lvl == level else "(stored at level %d, entered at %d)" % (A.lvl, level)))
+            if A.lvl != level:
+                ctx.event("program_protected_operator_entered_from_another_level")
+            try:
+                return _enter(level, Stot, budget, A, read_op=False)
+            finally:
+                A.obj.unprotect_basis()
+                A.protected_S = None
+        A.lvl = level            # __enter__ brings an unprotected context operator to the current basis
+        return _enter(level, Stot, budget, A, read_op=True)
+
+    def _enter(level, Stot, budget, A, read_op):
         events.append("ENTER")
         before = mgr_state()
         snap_objs = list(objs)
@@ -584,9 +612,10 @@ def run_case(case, ctx):
         try:
             with qr.eigenbasis_of(A.obj):
                 active.append(A)
-                if rng.random() < 0.6:
+                if read_op and rng.random() < 0.6:
                     with ctx.lib("context operator data", mechanism=None, expect=Boom):
                         ad = numpy.array(A.obj.data)
+                    A.lvl = level + 1
                     off = float(numpy.max(numpy.abs(ad - numpy.diag(numpy.diag(ad)))))
                     asc = float(max(0.0, -numpy.min(numpy.diff(numpy.diag(ad))))) if n > 1 else 0.0
                     ctx.check("context-operator-diagonal-ascending", max(off, asc), 1e-9 * scale(A.ref) * n, {"level": level + 1, "off_diagonal": off, "descent": asc,
@@ -607,9 +636,14 @@ def run_case(case, ctx):
                 if case["exc"] == "failpoint" and fp is not None and fp.ok and fp.fired is None and rng.random() < 0.5:
                     fp.arm(int(rng.integers(1, 400)))
                     armed = True
+                Slevels.append(Stot @ S)
                 try:
                     body(level + 1, Stot @ S, budget)
                 finally:
+                    Slevels.pop()
+                    for x in ctxops:
+                        if x.protected_S is None or x is A:
+                            x.lvl = min(x.lvl, level)
                     if armed:
                         fp.disarm()
             active.pop()
